@@ -269,6 +269,9 @@ func genScriptCode(t *rapid.T, allowMalformed bool) *scriptCode {
 		sc.script = append(sc.script, rapid.SampledFrom(tails).Draw(t, "tail")...)
 		sc.malformed = true
 	}
+	// the P2WPKH program shape may also arise from an empty push followed by a
+	// 20-byte push
+	sc.p2wpkh = len(sc.script) == 22 && sc.script[0] == 0x00 && sc.script[1] == 0x14
 	if _, ok := sighash.Parse(sc.script); ok == sc.malformed {
 		// a generated "malformed" tail may be completed by accident and
 		// vice versa; the model's tokenizer decides
